@@ -44,7 +44,7 @@ def run(tier: str, seed: int) -> int:
         "non-trivial = at least two accepted steps"
     )
     solvers = ["solver", "mle", "dynamic"] if tier == "quick" else ["solver", "mle", "mle_nocorr", "dynamic", "dynamic_relin"]
-    n = 4 if tier == "quick" else 20
+    n = 4 if tier == "quick" else 10
     pair_names = ["ties", "dense"] if tier == "quick" else list(PAIRS)
     profs = [("flat", "I_1", 1)] if tier == "quick" else [("flat", "I_1", 1), ("valley", "I_7_8", 1), ("tight_then_loose", "PI_7_8", F(1, 4)), ("loose_then_tight", "I_1_2", 4)]
 
@@ -151,9 +151,3 @@ def _numeric(rep, tier, seed):
                     scB = realruns.flat(solB.output_scale)
                     if sv == "mle" and realruns.rel(scA[-1:], scB[-1:]) > 1e-12:
                         rep.violation(f"impl:numeric-pair:{strat}:{sv}:output_scale", f"{prob}/{ssm_name}: calibrated scales differ", {})
-
-
-def replay(rep_obj) -> int:
-    print(rep_obj.get("what"))
-    print("re-run: ./check C05 --tier quick (the replay file lists the rejected event and the last events before it)")
-    return 1
